@@ -39,22 +39,22 @@ Definition atom_to_selfies (bond : option ebond) (a : atom) : res str :=
 (* ---------- _check_bond_constraints ---------- *)
 (* returns whether `errors` is non-empty; atom_to_smiles(atom) is evaluated for
    every offending atom, as in the source, so that it can fail as it does there *)
-Fixpoint bond_constraint_errors (T : table) (m : emol) (atoms : list (atom * attrs)) (idx : nat)
+Fixpoint bond_constraint_errors (capf : capfun) (m : emol) (atoms : list (atom * attrs)) (idx : nat)
   : res bool :=
   match atoms with
   | [] => Ok false
   | (a, _) :: r =>
-    do cap <- bonding_capacity T a;
+    do cap <- bonding_capacity_c capf a;
     do c2 <- mg_get_bond_count2 m idx;
     if (2 * cap <? c2)%Z then                          (* bond_count > bond_cap *)
       do _ <- atom_to_smiles a true;
-      do _ <- bond_constraint_errors T m r (S idx);
+      do _ <- bond_constraint_errors capf m r (S idx);
       Ok true
-    else bond_constraint_errors T m r (S idx)
+    else bond_constraint_errors capf m r (S idx)
   end.
 
-Definition check_bond_constraints (T : table) (m : emol) : res unit :=
-  do bad <- bond_constraint_errors T m (m_atoms m) 0;
+Definition check_bond_constraints (capf : capfun) (m : emol) : res unit :=
+  do bad <- bond_constraint_errors capf m (m_atoms m) 0;
   if bad then Err EncoderError else Ok tt.
 
 (* ---------- _should_invert_chirality ---------- *)
@@ -218,12 +218,12 @@ Fixpoint encode_roots (m : emol) (roots : list nat) (aidx : nat) : res (list str
   end.
 
 (* the part of encoder() after parsing *)
-Definition encode_mol (T : table) (m0 : emol) (strict : bool) : res (str * list amap) :=
+Definition encode_mol (capf : capfun) (m0 : emol) (strict : bool) : res (str * list amap) :=
   do k <- kekulize m0;
   match k with
   | None => Err EncoderError                                  (* kekulization failed *)
   | Some m1 =>
-    do _ <- (if strict then check_bond_constraints T m1 else Ok tt);
+    do _ <- (if strict then check_bond_constraints capf m1 else Ok tt);
     do atoms' <- invert_pass m1 (m_atoms m1) 0;
     let m2 := set_atoms m1 atoms' in
     do (frags, maps) <- encode_roots m2 (m_roots m2) 0;
@@ -235,12 +235,13 @@ Definition encode_mol (T : table) (m0 : emol) (strict : bool) : res (str * list 
 (* encoder(smiles, strict, attribute): the attribution maps are returned in
    both cases (with attribute = false every attribution is None and the source
    drops the list) *)
-Definition encoder (T : table) (smiles : str) (strict attribute : bool) : res (str * list amap) :=
+Definition encoder_c (capf : capfun) (smiles : str) (strict attribute : bool) : res (str * list amap) :=
   match smiles_to_mol smiles attribute with
   | Err SMILESParserError => Err EncoderError                 (* except SMILESParserError *)
   | Err e => Err e
-  | Ok m0 => encode_mol T m0 strict
+  | Ok m0 => encode_mol capf m0 strict
   end.
+Definition encoder (T : table) := encoder_c (get_bonding_capacity T).
 
 (* ---------- dumps for direct comparison with the library's internals ---------- *)
 Record mol_dump := {
